@@ -878,6 +878,14 @@ int ICACHE_FLASH_ATTR supla_esp_mqtt_str2int(const char *str, uint16_t len,
     }
   }
 
+  if (_len <= (minus ? 1 : 0)) {
+    // no digit in the integer part ("-", "-.5")
+    if (err) {
+      *err = 1;
+    }
+    return 0;
+  }
+
   for (a = minus ? 1 : 0; a < _len; a++) {
     result += (str[a] - '0') * pow(10, _len - 1 - a);
   }
